@@ -16,6 +16,7 @@ After every step the runner dumps every node reachable from every handle it hold
 canonical order) and evaluates C01 on the real objects.
 """
 
+import contextlib
 import operator
 
 DEFAULT_FLAGS = [False, True, False]
@@ -23,6 +24,7 @@ LIST_OPS = ('lset', 'ldel', 'lappend', 'linsert', 'lextend', 'liadd', 'lpop', 'l
             'lsort', 'lreverse', 'limul', 'lslice', 'ldelslice')
 DICT_OPS = ('dset', 'ddel', 'dpop', 'dpopitem', 'dclear', 'dsetdefault', 'dupdate', 'dior')
 OBJ_OPS = ('oset',)
+TL_OPS = ('tlset', 'tlappend', 'tlins', 'tldel', 'tlpop')     # lists typed `List(Object(C0))`
 
 
 class Opq:
@@ -62,7 +64,7 @@ def env():
     class C1(pg.Object):
       allow_symbolic_assignment = True
 
-    _ENV.update(pg=pg, classes=[C0, C1])
+    _ENV.update(pg=pg, classes=[C0, C1], tl_spec=pg.typing.List(pg.typing.Object(C0)))
   return _ENV
 
 
@@ -70,8 +72,13 @@ def _prefix(a, b):
   return len(a) <= len(b) and all(x == y and type(x) is type(y) for x, y in zip(a, b))
 
 
+# keys that look like path expressions (a key is one path component, whatever it contains)
+SPECIAL_KEYS = {4: 'm.c', 5: 'w[0]', 6: 'a b', 7: 'x]y.'}
+SPECIAL_KEYS_REV = {v: k for k, v in SPECIAL_KEYS.items()}
+
+
 def key_text(j):
-  return 'k%d' % j
+  return SPECIAL_KEYS.get(j, 'k%d' % j)
 
 
 class Runner:
@@ -81,6 +88,7 @@ class Runner:
     e = env()
     self.pg = e['pg']
     self.classes = e['classes']
+    self.tl_spec = e['tl_spec']
     self.roots = []
     self.serial = {}      # id(obj) -> serial number
     self.keep = []        # keeps every object ever seen alive (id() stays unique)
@@ -93,7 +101,7 @@ class Runner:
   def kind(self, n):
     pg = self.pg
     if isinstance(n, pg.List):
-      return 'l'
+      return 'l' if n.value_spec is None else 'tl'
     if isinstance(n, pg.Dict):
       return 'd'
     for i, c in enumerate(self.classes):
@@ -135,6 +143,8 @@ class Runner:
       c = [x for x in nodes if self.kind(x) == 'd']
     elif fam == 'l':
       c = [x for x in nodes if self.kind(x) == 'l']
+    elif fam == 'tl':
+      c = [x for x in nodes if self.kind(x) == 'tl']
     elif fam == 'o':
       c = [x for x in nodes if self.kind(x) in (['o', 0], ['o', 1])]
     else:
@@ -156,7 +166,7 @@ class Runner:
     if tag == 'e':
       if its:
         return its[abs(n) % ln][0]
-      return 0 if (cont is not None and self.kind(cont) == 'l') else key_text(0)
+      return 0 if (cont is not None and self.kind(cont) in ('l', 'tl')) else key_text(0)
     return key_text(0)
 
   def resolve_idx(self, cont, j):
@@ -189,6 +199,19 @@ class Runner:
       return ('atom', _STR.setdefault(abs(j[1]), 's%d' % abs(j[1])))
     if tag == 'q':
       return ('opq',)
+    if tag == 'T':
+      return ('tup', abs(j[1]) % 4)
+    if tag == 'tl':
+      # a typed list is constructed from fresh instances of C0
+      items = []
+      for i, x in enumerate(j[1]):
+        e = self.resolve_ve(cx, used, x)
+        if e[0] == 'node' and e[1] == ['o', 0]:
+          e = ('node', ['o', 0], e[2], [(k, self.plain_only(y)) for k, y in e[3]])
+        else:
+          e = ('node', ['o', 0], list(DEFAULT_FLAGS), [])
+        items.append((i, e))
+      return ('tlist', items)
     if tag == 'I':
       return ('inferred',)
     if tag == 'R':
@@ -218,7 +241,9 @@ class Runner:
           c = c.sym_parent
           steps += 1
       self_ref = (type(o) is pg.Ref and self.is_node(o.value) and self.same_root(cx, o.value))
-      if id(o) in used or ((diverges or self_ref) and not cx['unsafe']):
+      # (a spec-bound list is not offered by itself: an object field that receives it rewrites
+      # the offered list's allow_partial before the copy is made — F121, outside the model)
+      if id(o) in used or self.kind(o) == 'tl' or ((diverges or self_ref) and not cx['unsafe']):
         return ('atom', None)
       if o.sym_parent is None:
         # a parentless node will be moved: its whole subtree is then out of reach for this call
@@ -260,6 +285,36 @@ class Runner:
       return False
     return self.believed_root(o, cx['fuel']) is self.believed_root(cx['target'], cx['fuel'])
 
+  def plain_only(self, ve):
+    """values without offered nodes (inside the construction of a typed list)."""
+    if ve[0] == 'atom':
+      return ve
+    if ve[0] == 'node' and ve[1] in ('d', 'l'):
+      return ('node', ve[1], list(DEFAULT_FLAGS), [(k, self.plain_only(x)) for k, x in ve[3]])
+    return ('atom', None)
+
+  def for_typed(self, ve):
+    """what is offered to a typed list: an instance of C0 (new, with plain field values, or
+    existing) — anything else becomes the rejected value 1."""
+    if ve[0] == 'node' and ve[1] == ['o', 0]:
+      return ('node', ['o', 0], ve[2], [(k, self.plain_only(x)) for k, x in ve[3]])
+    if ve[0] == 'ref' and self.kind(ve[1]) == ['o', 0]:
+      return ve
+    return ('atom', 1)
+
+  def sanitize(self, ve):
+    """what survives pg.from_json(pg.to_json(v)): plain values, containers with default flags."""
+    if ve[0] == 'atom' and isinstance(ve[1], (int, str)) and not isinstance(ve[1], bool):
+      return ve
+    if ve[0] == 'tlist':
+      return ('node', 'l', list(DEFAULT_FLAGS), [(k, self.sanitize(x)) for k, x in ve[1]])
+    if ve[0] == 'node':
+      _, kind, _, items = ve
+      if isinstance(kind, list) and kind[1] >= 2:
+        return ('atom', None)
+      return ('node', kind, list(DEFAULT_FLAGS), [(k, self.sanitize(x)) for k, x in items])
+    return ('atom', None)
+
   def build(self, ve, top=False):
     """Python value of a resolved VE. Containers with default flags stay plain Python
     containers (pyglove converts them when it formalizes the value); flagged containers and
@@ -269,8 +324,12 @@ class Runner:
       return ve[1]
     if ve[0] == 'opq':
       return Opq()
+    if ve[0] == 'tup':
+      return tuple(Opq() for _ in range(ve[1]))
     if ve[0] == 'inferred':
       return pg.symbolic.ValueFromParentChain()
+    if ve[0] == 'tlist':
+      return pg.List([self.build(x) for _, x in ve[1]], value_spec=self.tl_spec)
     if ve[0] == 'mkref':
       return pg.Ref(ve[1] if ve[1] is not None else [1, 2])
     if ve[0] == 'ref':
@@ -302,7 +361,7 @@ class Runner:
       nxt = None
       if cur is not None:
         kk = k
-        if self.kind(cur) == 'l' and isinstance(k, int) and k < 0:
+        if self.kind(cur) in ('l', 'tl') and isinstance(k, int) and k < 0:
           kk = k + len(cur)
         for ck, cv in self.children(cur):
           if ck == kk and type(ck) is type(kk):
@@ -319,8 +378,9 @@ class Runner:
     nodes = self.all_nodes()
     self.pre_nodes = nodes
     self.result_new = None
-    fam = 'd' if name in DICT_OPS else 'l' if name in LIST_OPS else 'o' if name in OBJ_OPS else '*'
-    target = None if name == 'new' else self.pick(nodes, fam, abs(j.get('t', 0)))
+    fam = ('d' if name in DICT_OPS else 'l' if name in LIST_OPS else 'o' if name in OBJ_OPS
+           else 'tl' if name in TL_OPS else '*')
+    target = None if name in ('new', 'newjson') else self.pick(nodes, fam, abs(j.get('t', 0)))
     self.last_target = target
     cx = {'nodes': nodes, 'target': target, 'unsafe': bool(j.get('unsafe')), 'fuel': len(nodes)}
     used = set()
@@ -344,6 +404,17 @@ class Runner:
         return 'skip'
       self.result_new = self.build(ve, top=True)
       return 'ok'
+    if name == 'newjson':
+      # deserialization: the value travels through JSON (python form or text)
+      ve = self.sanitize(v('v'))
+      if ve[0] != 'node':
+        return 'skip'
+      value = self.build(ve, top=True)
+      if j.get('str'):
+        self.result_new = pg.from_json_str(pg.to_json_str(value))
+      else:
+        self.result_new = pg.from_json(pg.to_json(value))
+      return 'ok'
     if target is None:
       return 'skip'
     t = target
@@ -351,7 +422,7 @@ class Runner:
     del used
 
     # `pop` evaluates the value it returns; an un-inferable inferred value raises there: skipped
-    if name == 'lpop':
+    if name in ('lpop', 'tlpop'):
       idx_pop = self.resolve_idx(t, j['key'])
       kk = idx_pop + ln if idx_pop < 0 else idx_pop
       if self.holds_inferred(t, kk):
@@ -366,6 +437,14 @@ class Runner:
         self.result_new = t.clone(deep=bool(j.get('deep', False)))
       elif name in ('dset', 'lset'):
         t[self.resolve_key(t, j['key'])] = self.build(v('v'))
+      elif name == 'tlset':
+        t[self.resolve_key(t, j['key'])] = self.build(self.for_typed(v('v')))
+      elif name == 'tlappend':
+        t.append(self.build(self.for_typed(v('v'))))
+      elif name == 'tlins':
+        t.insert(self.resolve_idx(t, j['key']), self.build(self.for_typed(v('v'))))
+      elif name == 'tldel':
+        del t[self.resolve_key(t, j['key'])]
       elif name == 'oset':
         cls = self.kind(t)[1]
         setattr(t, key_text(abs(j['key']) % (cls + 2)), self.build(v('v')))
@@ -379,7 +458,7 @@ class Runner:
         t.extend([self.build(x) for x in vs('vs')])
       elif name == 'liadd':
         operator.iadd(t, [self.build(x) for x in vs('vs')])
-      elif name == 'lpop':
+      elif name in ('lpop', 'tlpop'):
         t.pop(idx_pop)
       elif name == 'lremove':
         t.remove(j.get('a', 0))
@@ -426,7 +505,7 @@ class Runner:
         else:
           t.update(d)
       elif name == 'rebind':
-        is_list = self.kind(t) == 'l'
+        is_list = self.kind(t) in ('l', 'tl')
         u = set()
         pairs = []
         for pspec, ins, val in j.get('pairs', []):
@@ -442,7 +521,9 @@ class Runner:
                                                and parent.sym_hasattr(k)) else None
           if parent is None or not self.is_node(parent):
             parent = None
-          ins = ins and parent is not None and self.kind(parent) == 'l'
+          ins = ins and parent is not None and self.kind(parent) in ('l', 'tl')
+          if parent is not None and self.kind(parent) == 'tl':
+            ve = self.for_typed(ve)
           if ins:
             ve = drop_own(parent, ve)
           pairs.append((path, ins, ve, parent))
@@ -458,7 +539,17 @@ class Runner:
         raise AssertionError('unknown op %s' % name)
 
     try:
-      with pg.notify_on_change(bool(notify)):
+      with contextlib.ExitStack() as stack:
+        stack.enter_context(pg.notify_on_change(bool(notify)))
+        if name == 'clone':
+          # cloning inside scoped flags must not leak the scope into the clone
+          sc_ = j.get('scope') or {}
+          if 'partial' in sc_:
+            stack.enter_context(pg.allow_partial(bool(sc_['partial'])))
+          if 'sealed' in sc_:
+            stack.enter_context(pg.as_sealed(bool(sc_['sealed'])))
+          if 'accw' in sc_:
+            stack.enter_context(pg.allow_writable_accessors(bool(sc_['accw'])))
         call()
       return 'ok'
     except (IndexError, KeyError, ValueError, TypeError, AttributeError, AssertionError,
@@ -523,6 +614,14 @@ class Runner:
         self.opq_serial[id(v)] = len(self.opq_serial)
         self.keep.append(v)
       return ['q', self.opq_serial[id(v)]]
+    if isinstance(v, tuple):
+      out = []
+      for x in v:
+        if id(x) not in self.opq_serial:
+          self.opq_serial[id(x)] = len(self.opq_serial)
+          self.keep.append(x)
+        out.append(self.opq_serial[id(x)])
+      return ['t', out]
     if v == pg.MISSING_VALUE and not isinstance(v, (int, str)):
       return 'M'
     if isinstance(v, bool):
@@ -536,6 +635,8 @@ class Runner:
   def key_j(self, k):
     if isinstance(k, int):
       return ['i', k]
+    if isinstance(k, str) and k in SPECIAL_KEYS_REV:
+      return ['k', SPECIAL_KEYS_REV[k]]
     if isinstance(k, str) and k[:1] == 'k' and k[1:].isdigit():
       return ['k', int(k[1:])]
     return ['?', repr(k)]
@@ -627,6 +728,8 @@ def canon(dump):
               [[k, conv(c)] for k, c in t['items']]]
     if isinstance(t, list) and t and t[0] == 'q':
       return ['q', opq.setdefault(('p', t[1]), len(opq))]
+    if isinstance(t, list) and len(t) == 2 and t[0] == 't' and isinstance(t[1], list):
+      return ['t', [opq.setdefault(('p', x), len(opq)) for x in t[1]]]
     return t
   return [conv(r) for r in dump]
 
